@@ -354,12 +354,14 @@ def stepStateful (s : State) : Label → Option (State × Resp)
       | none => none
       | some t => some ({ s with tbl := t }, .forward none (!e.closing))
   | .postBody i k =>
-    match findSess i s.tbl with
+    -- (a piecewise body that carries `initialize` is not modelled: the label is for calls and notifications)
+    if k.isInitialize then none
+    else match findSess i s.tbl with
     | none => none
     | some e =>
       match modify i (bodyF (s.accepts k) k) s.tbl with
       | none => none
-      | some t => some ({ s with tbl := t }, postResp s k (if k.isInitialize then some i else none) e.closing)
+      | some t => some ({ s with tbl := t }, postResp s k none e.closing)
   | .handlerDone i isInit =>
     match modify i (handlerDoneF isInit) s.tbl with
     | none => none
